@@ -131,6 +131,10 @@ func senderScenario(st *stack.Stack, r *rec, rng *rand.Rand, idx int) {
 	}
 	defer c.cl.Close()
 	w0 := []int{0, 1, 7, 100, 3000, 16384, 65535, 70000}[rng.Intn(8)]
+	connBound := idx%5 == 1 // large stream windows, big bodies, no connection-level credit: the 65535-byte connection window is what binds
+	if connBound {
+		w0 = 100000
+	}
 	c.cl.Conn.Write(h2raw.Settings(h2raw.Setting{ID: 4, Val: uint32(w0)}))
 	c.r.ev(map[string]any{"op": "initwin_send", "v": w0})
 	acked := func() bool {
@@ -149,6 +153,10 @@ func senderScenario(st *stack.Stack, r *rec, rng *rand.Rand, idx int) {
 	maxInit := w0
 	sizes := []int{0, 1, 100, 5000, 20000, 40000, 70000}
 	nstreams := 1 + rng.Intn(3)
+	if connBound {
+		nstreams = 3
+		sizes = []int{40000, 70000}
+	}
 	var ids []uint32
 	for i := 0; i < nstreams; i++ {
 		sid := uint32(1 + 2*i)
@@ -168,7 +176,7 @@ func senderScenario(st *stack.Stack, r *rec, rng *rand.Rand, idx int) {
 			c.cl.Conn.Write(h2raw.WindowUpdate(sid, n))
 			granted[sid] += int(n)
 			c.r.ev(map[string]any{"op": "wu", "s": sid, "n": n, "sure": false})
-		case k < 6:
+		case k < 6 && !connBound:
 			n := []uint32{1, 1000, 20000, 100000}[rng.Intn(4)]
 			c.cl.Conn.Write(h2raw.WindowUpdate(0, n))
 			c.r.ev(map[string]any{"op": "wu", "s": 0, "n": n, "sure": false})
